@@ -1,4 +1,139 @@
-import DDV.Gen.Lemmas.Tree
+/-
+  C18 — Conditional-compilation gates equal the conjunction of own and enclosing cfgs.
+-/
+import DDV.Gen.Passes
+
 namespace DDV.Props.C18
-theorem placeholder : True := trivial
+open DDV.Gen
+set_option linter.unusedVariables false
+set_option linter.unusedSimpArgs false
+
+/- The specification, as the tree recursion the property describes: an object's gate is its own
+   cfg combined with the gate of its enclosing block (`inh`, itself the combination along the
+   path); enums generated from a field additionally combine the field's cfg; nothing comes from
+   siblings or preceding blocks. With no cfg anywhere on the path the result is `none`. -/
+mutual
+def specObj (inh : Cfg) : Object → Object
+  | .block h os => .block { h with cfg := Cfg.combine h.cfg inh } (specList (Cfg.combine h.cfg inh) os)
+  | .register r => applyLeafCfg (Cfg.combine r.cfg inh) (.register r)
+  | .command x => applyLeafCfg (Cfg.combine x.cfg inh) (.command x)
+  | .buffer b => applyLeafCfg (Cfg.combine b.cfg inh) (.buffer b)
+  | .ref r => applyLeafCfg (Cfg.combine r.cfg inh) (.ref r)
+def specList (inh : Cfg) : List Object → List Object
+  | [] => []
+  | o :: os => specObj inh o :: specList inh os
+end
+
+/-- Invariant of the depth-tracked stack while the walk is at nesting level `depth` below the
+    blocks whose combined cfgs are `base` (innermost first): entries above that level may still be
+    on the stack (they are popped lazily at the next object), the rest of the stack is `base`. -/
+structure Inv (w : CfgWalk) (depth : Nat) (base : List Cfg) : Prop where
+  ge : depth ≤ w.currentDepth
+  len : w.stack.length = w.currentDepth + 1
+  tail : w.stack.drop (w.currentDepth - depth) = base
+
+theorem cfgStep_spec (w : CfgWalk) (depth : Nat) (own inh : Cfg) (rest : List Cfg)
+    (h : Inv w depth (inh :: rest)) :
+    cfgStep w depth own = .ok (Cfg.combine own inh, ⟨depth, inh :: rest⟩) := by
+  unfold cfgStep
+  by_cases hd : depth < w.currentDepth
+  · simp only [hd, if_true, h.tail, List.head?_cons]
+  · have heq : w.currentDepth = depth := by have := h.ge; omega
+    have ht := h.tail
+    rw [heq, Nat.sub_self, List.drop_zero] at ht
+    simp only [hd, if_false, ht, List.head?_cons]
+    cases w with
+    | mk cd st => simp only at heq ht; subst heq; subst ht; rfl
+
+theorem inv_after_step (depth : Nat) (base : List Cfg) (hl : base.length = depth + 1) :
+    Inv ⟨depth, base⟩ depth base :=
+  ⟨Nat.le_refl _, hl, by simp⟩
+
+mutual
+theorem cfgWalkObj_spec (inh : Cfg) (rest : List Cfg) :
+    ∀ (o : Object) (depth : Nat) (w : CfgWalk), rest.length = depth → Inv w depth (inh :: rest) →
+      ∃ w', cfgWalkObj depth w o = .ok (specObj inh o, w') ∧ Inv w' depth (inh :: rest)
+  | .block h os, depth, w, hr, hi => by
+    unfold cfgWalkObj specObj
+    rw [cfgStep_spec w depth h.cfg inh rest hi]
+    simp only
+    have hbase : (Cfg.combine h.cfg inh :: inh :: rest).length = (depth + 1) + 1 := by simp [hr]
+    have hinv : Inv ⟨depth + 1, Cfg.combine h.cfg inh :: inh :: rest⟩ (depth + 1)
+        (Cfg.combine h.cfg inh :: inh :: rest) := inv_after_step _ _ hbase
+    obtain ⟨w2, hw2, hi2⟩ := cfgWalkList_spec (Cfg.combine h.cfg inh) (inh :: rest) os (depth + 1) _
+      (by simp [hr]) hinv
+    rw [hw2]
+    refine ⟨w2, rfl, ?_⟩
+    refine ⟨by have := hi2.ge; omega, hi2.len, ?_⟩
+    have ht := hi2.tail
+    have hge := hi2.ge
+    have : w2.currentDepth - depth = (w2.currentDepth - (depth + 1)) + 1 := by omega
+    rw [this, ← List.drop_drop, ht]
+    rfl
+  | .register r, depth, w, hr, hi => by
+    unfold cfgWalkObj specObj
+    rw [cfgStep_spec w depth r.cfg inh rest hi]
+    exact ⟨_, rfl, inv_after_step _ _ (by simp [hr])⟩
+  | .command x, depth, w, hr, hi => by
+    unfold cfgWalkObj specObj
+    rw [cfgStep_spec w depth x.cfg inh rest hi]
+    exact ⟨_, rfl, inv_after_step _ _ (by simp [hr])⟩
+  | .buffer b, depth, w, hr, hi => by
+    unfold cfgWalkObj specObj
+    rw [cfgStep_spec w depth b.cfg inh rest hi]
+    exact ⟨_, rfl, inv_after_step _ _ (by simp [hr])⟩
+  | .ref r, depth, w, hr, hi => by
+    unfold cfgWalkObj specObj
+    rw [cfgStep_spec w depth r.cfg inh rest hi]
+    exact ⟨_, rfl, inv_after_step _ _ (by simp [hr])⟩
+
+theorem cfgWalkList_spec (inh : Cfg) (rest : List Cfg) :
+    ∀ (os : List Object) (depth : Nat) (w : CfgWalk), rest.length = depth → Inv w depth (inh :: rest) →
+      ∃ w', cfgWalkList depth w os = .ok (specList inh os, w') ∧ Inv w' depth (inh :: rest)
+  | [], depth, w, hr, hi => by
+    unfold cfgWalkList specList
+    exact ⟨w, rfl, hi⟩
+  | o :: os, depth, w, hr, hi => by
+    unfold cfgWalkList specList
+    obtain ⟨w1, h1, i1⟩ := cfgWalkObj_spec inh rest o depth w hr hi
+    rw [h1]
+    simp only
+    obtain ⟨w2, h2, i2⟩ := cfgWalkList_spec inh rest os depth w1 hr i1
+    rw [h2]
+    exact ⟨w2, rfl, i2⟩
+end
+
+/-- **C18.** For every object tree, the depth-tracked stack walk of `propagate_cfg` never fails and
+    gates every object, and every enum generated from a field, with exactly its own cfg combined
+    with the cfgs of the blocks enclosing it — the tree recursion `specList`. -/
+theorem cfg_is_path_conjunction (d : Device) :
+    propagateCfg d = .ok { d with objects := specList none d.objects } := by
+  unfold propagateCfg
+  obtain ⟨w', h, _⟩ := cfgWalkList_spec none [] d.objects 0 ⟨0, [none]⟩ rfl
+    ⟨Nat.le_refl _, rfl, rfl⟩
+  rw [h]
+
+/-- Items with no cfg anywhere on their path are unconditional. -/
+theorem no_cfg_on_path_is_unconditional (own : Cfg) (h : own = none) : Cfg.combine own none = none := by
+  subst h; rfl
+
+/-- The combination rule: identity on `none`, idempotent on equal predicates, `all(own, inherited)`
+    otherwise. -/
+theorem combine_rule (a b : String) :
+    Cfg.combine (some a) none = some a ∧ Cfg.combine none (some b) = some b ∧
+    Cfg.combine (some a) (some a) = some a ∧
+    (a ≠ b → Cfg.combine (some a) (some b) = some s!"all({a}, {b})") := by
+  refine ⟨rfl, rfl, by simp [Cfg.combine], fun h => by simp [Cfg.combine, h]⟩
+
+/-- Non-vacuity: the witness of the former defect (an object following two closed nested cfg'd
+    blocks) is unconditional. -/
+example : specList none
+    [.block ⟨some "a", "", "A", 0, none⟩ [.block ⟨some "b", "", "B", 0, none⟩ [.buffer ⟨none, "", "R1", .rw, 0⟩]],
+     .buffer ⟨none, "", "R2", .rw, 1⟩] =
+    [.block ⟨some "a", "", "A", 0, none⟩ [.block ⟨some "all(b, a)", "", "B", 0, none⟩
+        [.buffer ⟨some "all(b, a)", "", "R1", .rw, 0⟩]],
+     .buffer ⟨none, "", "R2", .rw, 1⟩] := by
+  simp [specList, specObj, applyLeafCfg, Object.setCfg, Cfg.combine]
+  decide
+
 end DDV.Props.C18
